@@ -487,14 +487,14 @@ package message
 //@   ensures result ==> closed(r.closingInProgressCh) && closed(r.closedCh) [a-closed-router-has-both-close-channels-closed]
 
 //@ func (*Router).watchAllHandlersStopped$1
-//@   requires r != nil && routerBuilt(r) && r.logger != nil && ctx != nil
+//@   requires r != nil && routerBuilt(r) && ctx != nil
 //@   nopanic
 //@   ensures closed(r.closedCh) || closed(r.closingInProgressCh) [the-watcher-ends-only-when-the-router-is-closed-or-closing]
 //@   ensures ncalls(RCLOSE) <= old(ncalls(RCLOSE)) + 1 [it-closes-the-router-at-most-once]
 //@   assert @call:(*Router).Close: ncalls("(*Router).IsClosed") == old(ncalls("(*Router).IsClosed")) + 1 [it-closes-the-router-only-after-every-receive-loop-ended-and-the-router-was-seen-open]
 
 //@ func (*Router).watchAllHandlersStopped
-//@   requires r != nil && r.handlersLock != nil
+//@   requires r != nil && routerBuilt(r) && ctx != nil
 //@   nopanic
 //@   ensures spawned("(*Router).watchAllHandlersStopped$1") == old(spawned("(*Router).watchAllHandlersStopped$1")) + 1 [one-watcher-started]
 
@@ -519,7 +519,7 @@ package message
 //@   ghost atomic
 //@   ghost set closeCompleted(r) = !timedout @close:r.closedCh
 //@   assert @close:r.closedCh: ncalls(WFH) == atlock(ncalls(WFH)) + 1 [the-close-is-announced-as-complete-only-after-the-wait-for-the-handlers-returned]
-//@   requires r != nil && routerBuilt(r) && r.logger != nil
+//@   requires r != nil && routerBuilt(r)
 //@   nopanic
 //@   ensures r.closed && closed(r.closingInProgressCh) && closed(r.closedCh) [closed-and-both-close-channels-closed]
 //@   ensures old(r.closed) ==> ncalls(WFH) == old(ncalls(WFH)) [a-repeated-close-does-nothing]
